@@ -5,6 +5,7 @@ from vlib import core
 from vlib.core import hx, unhx
 
 AVOGNUM = 0.602214129
+K_PARTIAL = 'kissel_pe.c:62-67 CSb_Photo_Total adds 0 for a sub-shell whose table ends below E'
 
 def val(ans):
     """-> float value if the call succeeded (slot E), None if it failed properly, 'bad' otherwise"""
@@ -185,7 +186,7 @@ class C05(Check):
                     for mode in 'EN':
                         for fn in ('CSb_Photo_Total', 'CS_Photo_Total', 'CS_Total_Kissel', 'CSb_Total_Kissel', 'CS_Rayl', 'CS_Compt'):
                             kl.append('%s %d %s %s' % (fn, Z, hx(E), mode))
-                    for sh, _ in occ: kl.append('CSb_Photo_Partial %d %d %s N' % (Z, sh, hx(E)))
+                    for sh, _ in occ: kl.append('CSb_Photo_Partial %d %d %s E' % (Z, sh, hx(E)))
                     kl.append('AtomicWeight %d N' % Z)
             kl = list(dict.fromkeys(kl))
             ka = dict(zip(kl, ctx.run_c(kl, exe=kexe)))
@@ -196,9 +197,12 @@ class C05(Check):
                 return None if p_['vals'][0] == 0 else 'bad'
             for Z, E, occ in kplan:
                 aw = kv('AtomicWeight %d N' % Z)
-                parts = [(kv('CSb_Photo_Partial %d %d %s N' % (Z, sh, hx(E))), o_) for sh, o_ in occ]
+                parts = [(kv('CSb_Photo_Partial %d %d %s E' % (Z, sh, hx(E))), o_) for sh, o_ in occ]
                 if any(p_ == 'bad' for p_, _ in parts) or aw in ('bad', None, 0.0): continue
                 psum = sum((p_ or 0.0) * o_ for p_, o_ in parts)
+                # a sub-shell at or above its edge whose partial cross section is UNDEFINED (its table ends below E) is an undefined part:
+                # by the text the aggregate must then fail; the code adds 0 for it (kissel_pe.c:62-67, NULL slot) and returns the rest
+                undefined = [sh for (sh, o_), (p_, _) in zip(occ, parts) if p_ is None and sh < 28 and 0 < pv['EdgeEnergy %d %d' % (Z, sh)] <= E]
                 for mode in 'EN':
                     got = {fn: kv('%s %d %s %s' % (fn, Z, hx(E), mode)) for fn in ('CSb_Photo_Total', 'CS_Photo_Total', 'CS_Total_Kissel', 'CSb_Total_Kissel', 'CS_Rayl', 'CS_Compt')}
                     def judge(fn, exp, what):
@@ -211,6 +215,17 @@ class C05(Check):
                         elif g_ is None or g_ == 0.0 or not core.close(g_, exp, 1e-12):
                             viol.append(dict(key=line, got=ka[line[:-7]], expected='value %r' % exp, what=what))
                     pe = psum if psum > 0 and E > 0 else None
+                    if undefined and pe is not None:
+                        # strict reading: fails.  The known site returns exactly the sum over the defined parts.
+                        for fn_ in ('CSb_Photo_Total', 'CS_Photo_Total', 'CS_Total_Kissel', 'CSb_Total_Kissel'):
+                            g_ = got[fn_]; kn += 1
+                            if g_ in (None, 0.0): continue
+                            line = '%s %d %s %s  @real' % (fn_, Z, hx(E), mode)
+                            expv = {'CSb_Photo_Total': pe, 'CS_Photo_Total': pe * AVOGNUM / aw}.get(fn_)
+                            site = g_ != 'bad' and (expv is None or core.close(g_, expv, 1e-12))
+                            viol.append(dict(key=K_PARTIAL if site else line, got=ka[line[:-7]], expected='fails: sub-shell(s) %s are ionisable at this energy but their cross section is undefined (table ends below E)' % undefined,
+                                             what='Kissel aggregate returns a partial sum although a part is undefined (%s)' % line))
+                        continue
                     judge('CSb_Photo_Total', pe, 'Kissel photo total = occupancy-weighted sum of the sub-shell cross sections')
                     pcm = None if pe is None else pe * AVOGNUM / aw
                     judge('CS_Photo_Total', pcm, 'CS_Photo_Total = CSb_Photo_Total x N_A / A')
@@ -246,6 +261,13 @@ class C05(Check):
                           'non-trivial = cases where all parts are defined',
                      distinct_nontrivial=nontriv, differential_identities=dn,
                      samples=[dict(call=lines[plan[i][1]], impl=ans[plan[i][1]], parts=[ans[j] for j in plan[i][2]]) for i in (0, len(plan) // 2, len(plan) - 1)])
+        seen_k = False; outv = []
+        for v in viol:
+            if v['key'] == K_PARTIAL:
+                if seen_k: continue
+                seen_k = True
+            outv.append(v)
+        viol = outv
         return len(plan) + len(dplan) + ns + kn, viol, stats
 
 CHECK = C05()
